@@ -213,6 +213,15 @@ def agg_spec(rng: random.Random, name: str, maxlen: int = 8) -> dict:
             spec["raw"] = True
             spec["srcs"] = [[rng.choice(["a", "b"]) for _ in range(rng.randint(0, 3))]]
             spec["params"]["start"] = ["raw", ""]
+        elif r < 0.45:  # list start, members of other sequence types: + refuses what += would accept
+            spec["raw"] = True
+            spec["srcs"] = [[rng.choice([["L", 1], ["T", 2], "ab", ["L"], ["T"]]) for _ in range(rng.randint(0, 4))]]
+            spec["params"]["start"] = ["raw", ["L"]]
+        elif r < 0.55:  # objects for which 0 + x is x itself and += works in place
+            spec["raw"] = True
+            spec["srcs"] = [[["V", rng.randrange(4)] for _ in range(rng.randint(0, 4))]]
+            if rng.random() < 0.3:
+                spec["params"]["start"] = ["raw", ["V", 0]]
         else:
             spec["raw"] = True
             pool = {"exact": RAW_EXACT, "inexact": RAW_INEXACT, "unorderable": RAW_UNORDERABLE, "nan": RAW_NAN}.get(cls, RAW_EXACT)
